@@ -342,7 +342,7 @@ Proof.
 Qed.
 
 Lemma increment_once_refines s B :
-  wf_set s -> bounded B (vs_vals s) -> 0 <= B -> B + max_total_voting_power <= max_int64 ->
+  wf_set s -> bounded B (vs_vals s) -> 0 <= B -> B + total_power (vs_vals s) <= max_int64 ->
   exists s' m, increment_once s = Some (s', m) /\
     spec_round (vs_vals s) (vs_vals s') (v_addr m) /\
     (exists m0, In m0 (vs_vals s) /\ v_addr m0 = v_addr m /\ v_power m0 = v_power m) /\
@@ -401,7 +401,7 @@ Qed.
 
 Lemma rounds_refine (k : nat) : forall s B,
   wf_set s -> bounded B (vs_vals s) -> 0 <= B ->
-  B + Z.of_nat (S k) * max_total_voting_power <= max_int64 ->
+  B + Z.of_nat (S k) * total_power (vs_vals s) <= max_int64 ->
   exists s' m props,
     nat_rect (fun _ => iter_state) (Some (s, None)) (fun _ => iter_step) (S k) = Some (s', Some m) /\
     spec_rounds (S k) (vs_vals s) (vs_vals s') props /\ last props 0%N = v_addr m /\
@@ -417,7 +417,7 @@ Proof.
     split; [exact M0|]. split; [exact W'|]. split; [exact T'|]. split; [exact P'|].
     intros v Hv. specialize (HB' v Hv). lia.
   - destruct (IH s B W HB B0') as (s1 & m1 & props & E & R & L & M0 & W1 & T1 & P1 & HB1);
-      [unfold max_total_voting_power in *; lia|].
+      [pose proof (wf_total_pos _ (proj1 W)); lia|].
     change (nat_rect (fun _ => iter_state) (Some (s, None)) (fun _ => iter_step) (S (S k)))
       with (iter_step (nat_rect (fun _ => iter_state) (Some (s, None)) (fun _ => iter_step) (S k))).
     rewrite E. cbn [iter_step].
@@ -425,11 +425,9 @@ Proof.
     { destruct W as [_ E0], W1 as [_ E1]. lia. }
     pose proof (proj2 (proj2 (proj2 (proj1 W)))) as Cap.
     pose proof (wf_total_pos _ (proj1 W)) as Tpos.
-    assert (Z.of_nat (S k) * total_power (vs_vals s) <= Z.of_nat (S k) * max_total_voting_power) as MM
-      by (apply Z.mul_le_mono_nonneg_l; lia).
     assert (0 <= Z.of_nat (S k) * total_power (vs_vals s)) as MP by (apply Z.mul_nonneg_nonneg; lia).
     destruct (increment_once_refines s1 (B + Z.of_nat (S k) * total_power (vs_vals s)) W1 HB1) as
-        (s' & m & -> & R' & M0' & W' & T' & P' & HB'); [lia|unfold max_total_voting_power in *; lia|].
+        (s' & m & -> & R' & M0' & W' & T' & P' & HB'); [lia|rewrite ET; lia|].
     exists s', m, (props ++ [v_addr m]).
     split; [reflexivity|]. split; [eapply spec_rounds_snoc; eassumption|]. split; [now rewrite last_last|].
     split.
@@ -487,9 +485,7 @@ Proof.
   { exact Bnd. }
   { lia. }
   { assert (Z.of_nat (S k) = Z.pos times) as -> by (rewrite <- EK; apply positive_nat_Z).
-    assert (Z.pos times * T <= Z.pos times * max_total_voting_power) by (apply Z.mul_le_mono_nonneg_l; lia).
-    (* (times+2) T <= B0 does not bound times * cap; use the total instead *)
-    clear - HK Tpos C. unfold T in *. i64. }
+    rewrite ET2. clear - HK Tpos C. i64. }
   exists (with_proposer s' (Some (v_addr m, v_power m))), props, (v_addr m), (v_power m).
   cbn [with_proposer vs_vals vs_total vs_proposer].
   split; [reflexivity|]. split; [|split; [exact L|split; [reflexivity|split; [|split; [|split]]]]].
